@@ -103,7 +103,8 @@ def _recover_cells(ctx):
 
     def share(g, m, mt):
         return Obj("shamir", "Share", {"group_index": g, "member_index": m, "member_threshold": mt, "bytes": bytes([g, m]) * 8, "value": bytes([g, m]) * 8})
-    hooks = {("ShareSet", "recover_secret"): lambda b, data: ("RS", tuple(data)), ("ShareSet", "decrypt"): lambda b, secret, *a, **k: ("D", secret)}
+    hooks = {("ShareSet", "recover_secret"): lambda b, data: ("RS", tuple(data)), ("ShareSet", "decrypt"): lambda b, secret, *a, **k: ("D", secret),
+             ("ShareSet", "interpolate"): lambda b, x, data: ("IP", x, tuple(data))}
     cells = 0
     for G in (1, 2, 3):
         opts = list(itertools.product((1, 2, 3), (0, 1, 2, 3))) if G < 3 else list(itertools.product((1, 2), (0, 1, 2)))
@@ -131,6 +132,9 @@ def _recover_cells(ctx):
                     secs = [(g, bytes([g, 0]) * 8 if mt == 1 else ("RS", tuple((m, bytes([g, m]) * 8) for m in range(c)))) for g, mt, c in present]
                     want = ("D", secs[0][1]) if gt == 1 else ("D", ("RS", tuple(secs)))
                     if r != want:
+                        if "'IP'" in repr(r):
+                            return [ctx.bad(spec, "%s: a secret is interpolated directly, without recover_secret(): the digest share (x = 254) is not checked, so shares of "
+                                                  "different splits combine into a wrong secret instead of being refused" % desc, fn, mod, key="group-threshold")]
                         return [ctx.bad(spec, "%s: the value decrypted is not the interpolation of all group secrets present (each the interpolation of all its member shares)" % desc,
                                         fn, mod, key="group-threshold")]
     # members of one group that disagree on the member threshold
@@ -505,8 +509,8 @@ def c15_11(ctx):
 
 def c15_9(ctx):
     """MEMO: a recovered / decrypted secret is not remembered under a key that leaves out the passphrase or the shares"""
-    from sa.memo import memo_obligation
-    return memo_obligation(ctx, ["shamir"], "a secret decrypted with one passphrase would be returned for another")
+    from sa.memo import cache_obligation
+    return cache_obligation(ctx, ["shamir", "mnemonic"], "a secret decrypted with one passphrase would be returned for another")
 
 
 def c15_10(ctx):
@@ -567,7 +571,23 @@ def c15_10(ctx):
     return out
 
 
+def c15_12(ctx):
+    """SET-ORDER: no ordered result (list, serialisation, yielded sequence) of the modules this property is anchored in takes its
+    order from the iteration order of a set"""
+    from sa.setorder import setorder_obligation
+    return setorder_obligation(ctx, ["shamir", "mnemonic"], "the same inputs give different output from run to run")
+
+
+def c15_13(ctx):
+    """SHARED necessary conditions over the modules this property is anchored in: FALSY-DEFAULT, MUTABLE-DEFAULT, IDENTITY, ALIAS,
+    CTOR-FORWARD (sa/shared.py)"""
+    from sa.shared import shared_obligations
+    return shared_obligations(ctx, ["shamir", "mnemonic"], "the result would depend on something other than the arguments and the object's current state")
+
+
 OBLIGATIONS = [
+    ("C15.13", "SHARED", c15_13),
+    ("C15.12", "SET-ORDER", c15_12),
     ("C15.1", "GUARD", c15_1),
     ("C15.2", "GUARD", c15_2),
     ("C15.3", "GUARD", c15_3),
